@@ -664,6 +664,41 @@ def run_both(model, impl, cases):
     return io, icr, mo, mcr
 
 
+SOAK_CONFIGS = [(poller, nthreads, eintr) for poller in ("epoll", "poll") for nthreads in (0, 1, 3) for eintr in (0, 1)]
+
+
+def soak(chk, prop, conns=18):
+    """Thorough tier: free-running loopback soak of the real TcpServer/TcpConnection (harness/Conn_soak.cc) under both
+    pollers with 0, 1 and 3 io threads, with and without EINTR showers.  Nothing is scripted, so a failure is reported
+    with the command line that produced it (seeded, but scheduling is the OS's).  Returns (ok, failure lines of `prop`,
+    list of summary dicts)."""
+    exe = vlib.build_driver("Conn_soak", ["Conn_soak.cc"], variant="asan")
+    mine, summaries = [], []
+    for (poller, nthreads, eintr) in SOAK_CONFIGS:
+        seed = chk.rng.randrange(1, 1 << 30)
+        cmd = [exe, str(nthreads), str(conns), str(seed), str(eintr)]
+        env = {"MUDUO_USE_POLL": "1"} if poller == "poll" else {}
+        rc, out = vlib.sh(cmd, env=env, timeout=300)
+        chk.cov["evaluations"] += 1
+        lines = out.splitlines()
+        summ = next((l for l in lines if l.startswith("soak ")), None)
+        res = next((l for l in lines if l.startswith("result=")), None)
+        how = "%s%s %s" % ("MUDUO_USE_POLL=1 " if poller == "poll" else "", " ".join(["Conn_soak"] + cmd[1:]), "")
+        if res is None:
+            # wedged (watchdog), crashed or aborted: every property of the connection is off
+            mine.append("%s: soak did not finish (rc=%s): %s" % (how.strip(), rc, (lines[-1] if lines else "no output")[:300]))
+        else:
+            for l in lines:
+                if l.startswith("FAIL %s:" % prop):
+                    mine.append("%s: %s" % (how.strip(), l))
+        if summ:
+            d = dict(kv.split("=", 1) for kv in summ.split()[1:])
+            d["eintr"] = str(eintr)
+            d["result"] = res or "none"
+            summaries.append(d)
+    return (not mine), mine, summaries
+
+
 def run_property(chk, prop, oracle, profiles, nrand_quick, nrand_thorough, replay=None, extra_cases=(), nontrivial=None,
                  rule="", trusted=(), assumptions=(), races=False):
     """Common check body for the single-connection properties."""
@@ -731,6 +766,12 @@ def run_property(chk, prop, oracle, profiles, nrand_quick, nrand_thorough, repla
     chk.cov["traces_validated_against_impl"] = len(cases) - len(corr_bad)
     chk.add_obligation("correspondence: extracted Conn_Model.step == real TcpConnection (scripted kernel, raw peer) on every case, every observer after every op", not corr_bad)
     chk.add_obligation("oracle: %s evaluated on the implementation's own trace" % prop, not orc_bad)
+    soak_bad = []
+    if chk.tier == "thorough" and not replay:
+        ok_soak, soak_bad, summ = soak(chk, prop)
+        chk.cov["soak"] = summ
+        chk.add_obligation("free-running loopback soak (real TcpServer, both pollers, 0/1/3 io threads, EINTR showers): %s clauses hold on what the raw peers received" % prop, ok_soak)
+        chk.trusted("harness/Conn_soak.cc: raw-socket peers, frame parser, per-connection callback bookkeeping")
     chk.trusted("extraction: ExtrOcamlBasic only (Conn_Model.step/init/run_batch/uses_kernel/xstep/xinit); extract/util.ml + extract/Conn_driver.ml",
                 "translator lib/cxxast.py + lib/gen_Conn.py: guards, argument expressions and structure facts of TcpConnection.cc from clang's JSON AST (Gen_Conn.v), "
                 "linked to the model by Conn_GenTie*.v",
@@ -759,6 +800,10 @@ def run_property(chk, prop, oracle, profiles, nrand_quick, nrand_thorough, repla
         small = shrink(c, pred)
         path = chk.write_replay("oracle_%s.case" % c.cid, "# %s\n# signature: %s\n%s" % (msg.replace("\n", " "), key, small.text()))
         chk.violation(path, "%s fails on the implementation: %s (%d failing case(s))" % (prop, msg, len(set(x[0].cid for x in orc_bad))))
+    elif soak_bad:
+        path = chk.write_replay("soak_failure.txt", "# free-running soak (harness/Conn_soak.cc); re-run the command below against the same tree (seeded; scheduling is the OS's)\n"
+                                + "\n".join(soak_bad) + "\n")
+        chk.violation(path, "%s fails in the free-running soak: %s (%d failure line(s))" % (prop, soak_bad[0], len(soak_bad)))
     elif corr_bad or not pr["ok"]:
         what = []
         body = ""
